@@ -9,4 +9,5 @@ CONSTANTS
   SharedShellArgs = FALSE
   Fam = "shared"
   NG = 4
+  Extra = "none"
 CHECK_DEADLOCK FALSE
